@@ -10,6 +10,8 @@ units = [("locks", ()), ("slab", ()), ("slab", ("-DFRG_SLAB_TRACK_REGIONS",)), (
          ("string", ("-DFRG_VERIF_WIDE",)), ("holders", ()), ("bits", ()), ("format", ()), ("trees", ()), ("typelevel", ()), ("typelevel_slab", ())]
 p = os.path.join(os.path.dirname(HERE), "frg", "known_functions.json")
 names = set(json.load(open(p)))
+pa = os.path.join(os.path.dirname(HERE), "frg", "known_arities.json")
+arities = set(json.load(open(pa))) if os.path.exists(pa) else set()
 before = len(names)
 for u, fl in units:
     try:
@@ -18,5 +20,7 @@ for u, fl in units:
         print("skip", u, fl, e); continue
     for f in un.functions:
         names.add(f.uq)
+        arities.add("%s/%d" % (f.uq, len(f.params())))
 json.dump(sorted(names), open(p, "w"), indent=0)
+json.dump(sorted(arities), open(pa, "w"), indent=0)
 print("known functions: %d -> %d" % (before, len(names)))
